@@ -92,7 +92,7 @@ def run_extraction(repo, out_dir, target_dir, nonce):
     return r
 
 
-def ensure_facts(repo=REPO, force=False, fresh_target=False):
+def ensure_facts(repo=REPO, force=False, fresh_target=False, cold=False):
     """returns (facts_dir, info dict)"""
     os.makedirs(CACHE, exist_ok=True)
     t0 = time.time()
@@ -104,8 +104,12 @@ def ensure_facts(repo=REPO, force=False, fresh_target=False):
         facts_dir = os.path.join(CACHE, "facts", sha)
         lib = os.path.join(facts_dir, "tree_sitter_graph-lib.json")
         binf = os.path.join(facts_dir, "tree_sitter_graph-bin.json")
+        # thorough tier: facts must come from a cold extraction (fresh target directory); one cold run per source state
+        if cold and not os.path.exists(os.path.join(facts_dir, "cold")):
+            force = True
+            fresh_target = True
         if not force and os.path.exists(lib) and os.path.exists(binf) and os.path.exists(os.path.join(facts_dir, "nonce")):
-            return facts_dir, {"cached": True, "sha256": sha, "extract_s": 0.0}
+            return facts_dir, {"cached": True, "sha256": sha, "extract_s": 0.0, "cold": os.path.exists(os.path.join(facts_dir, "cold"))}
         nonce = uuid.uuid4().hex
         tmp_out = os.path.join(CACHE, "facts", "tmp-" + nonce)
         target = DEPS_TARGET
@@ -130,6 +134,9 @@ def ensure_facts(repo=REPO, force=False, fresh_target=False):
                     raise SystemExit("tsgfacts: stale fact file %s (nonce mismatch)" % name)
             with open(os.path.join(tmp_out, "nonce"), "w") as f:
                 f.write(nonce)
+            if fresh_target:
+                with open(os.path.join(tmp_out, "cold"), "w") as f:
+                    f.write("extracted with a fresh target directory\n")
             if os.path.isdir(facts_dir):
                 shutil.rmtree(facts_dir)
             os.makedirs(os.path.dirname(facts_dir), exist_ok=True)
